@@ -835,27 +835,44 @@ def inline_calls(st, helpers, depth=0, used=None):
       * the helper may `return e;` only as its last statement; the call's target then receives e.  When e is a local of the
         helper (`int r = 0; ..; return r;`) that local is the target itself;
       * other locals of the helper are renamed when the caller uses the same name.
-    Inlined statements are spliced into the enclosing block."""
+    A call nested in an expression (statement, condition, return value) is replaced too when the helper is pure (writes nothing
+    but its own locals, calls nothing but libm / stdio): `{ return e; }` by `(e)` in place, a longer body through a temporary
+    `auto name__ret = name(args);` placed before the statement.  Inlined statements are spliced into the enclosing block."""
     if used is None:
         used = _idents(st)
     k = st[0]
+    rec = lambda x: inline_calls(x, helpers, depth, used)
+
+    def toks_(t):
+        return _expr_inline(t, helpers)
+
+    def hoisted(tokens, rebuild):
+        """statement `rebuild(tokens)` with the calls of pure helpers inside `tokens` moved into temporaries before it"""
+        tokens, pre = _hoist(toks_(tokens), helpers, used)
+        out = rebuild(tokens)
+        if not pre:
+            return out
+        pre = [inline_calls(x, helpers, depth + 1, used) for x in pre]
+        return ("block", [y for x in pre for y in (x[1] if x[0] == "block" else [x])] + [out])
     if k == "block":
         out = []
         for s in st[1]:
-            r = inline_calls(s, helpers, depth, used)
-            if r is not s and s[0] == "expr" and r[0] == "block":
+            r = rec(s)
+            if r is not s and s[0] != "block" and r[0] == "block":
                 out.extend(r[1])
             else:
                 out.append(r)
         return ("block", out)
     if k == "if":
-        return ("if", st[1], inline_calls(st[2], helpers, depth, used), None if st[3] is None else inline_calls(st[3], helpers, depth, used))
+        return hoisted(st[1], lambda c: ("if", c, rec(st[2]), None if st[3] is None else rec(st[3])))
     if k == "for":
-        return ("for", st[1], st[2], st[3], inline_calls(st[4], helpers, depth, used))
+        return ("for", toks_(st[1]), toks_(st[2]), toks_(st[3]), rec(st[4]))
     if k in ("while", "dowhile"):
-        return (k, st[1], inline_calls(st[2], helpers, depth, used))
+        return (k, toks_(st[1]), rec(st[2]))
     if k == "try":
-        return ("try", inline_calls(st[1], helpers, depth, used), [(d, inline_calls(b, helpers, depth, used)) for d, b in st[2]])
+        return ("try", rec(st[1]), [(d, rec(b)) for d, b in st[2]])
+    if k in ("return", "throw") and depth < 4:
+        return hoisted(st[1], lambda c: (k, c))
     if k == "expr" and len(st[1]) >= 3 and depth < 4:
         toks = st[1]
         target = None
@@ -869,12 +886,15 @@ def inline_calls(st, helpers, depth=0, used=None):
             if r is not None:
                 used |= _idents(r)
                 return inline_calls(r, helpers, depth + 1, used)
+        return hoisted(toks, lambda c: ("expr", c) if c != toks else st)
     return st
 
 
-def _inlined(callee, args, target, helper, used):
+def _hinfo(helper):
+    """(parameters, statements before the final return, returned expression | None, pure?) of a helper; None when it leaves
+    from the middle"""
     params, body = helper[0], helper[1]
-    if body[0] != "block" or len(args) != len(params) or any(not a for a in args):
+    if body[0] != "block":
         return None
     params = [p if isinstance(p, tuple) else (p, "subst", []) for p in params]
     stmts = list(body[1])
@@ -882,9 +902,69 @@ def _inlined(callee, args, target, helper, used):
     ret = None
     if rets:
         if len(rets) != 1 or not stmts or stmts[-1] is not rets[0]:
-            return None                     # leaves from the middle: not modelled
+            return None
         ret = list(rets[0][1])
         stmts = stmts[:-1]
+    core = ("block", stmts)
+    own = declared_locals(core) | {p for p, kind, typ in params if kind == "value"}
+    pure = written(core) <= own and not may_throw(body)
+    return params, stmts, ret, pure
+
+
+def _calls_in(tokens, helpers):
+    """(i, j, name, args) of the calls `name(args)` = tokens[i:j] of helpers inside an expression"""
+    for i, t in enumerate(tokens):
+        if t in helpers and i + 1 < len(tokens) and tokens[i + 1] == "(" and not (i and tokens[i - 1] in (".", "->", "::")):
+            d = 0
+            for j in range(i + 1, len(tokens)):
+                d += tokens[j] == "("
+                d -= tokens[j] == ")"
+                if d == 0:
+                    inner = tokens[i + 2:j]
+                    yield i, j + 1, t, ([a for a in _top_split(inner, (",",))] if inner else [])
+                    break
+
+
+def _expr_inline(tokens, helpers, depth=0):
+    """`name(args)` of a pure helper `{ return e; }` -> `(e)` with the parameters replaced by the (parenthesised) arguments"""
+    tokens = list(tokens)
+    if depth > 4:
+        return tokens
+    for i, j, name, args in _calls_in(tokens, helpers):
+        h = _hinfo(helpers[name])
+        if h and not h[1] and h[2] and h[3] and len(args) == len(h[0]) and all(args):
+            m = {p[0]: (list(a) if len(a) == 1 else ["("] + list(a) + [")"]) for p, a in zip(h[0], args)}
+            return _expr_inline(tokens[:i] + ["("] + _subst_tokens(h[2], m) + [")"] + tokens[j:], helpers, depth + 1)
+    return tokens
+
+
+def _hoist(tokens, helpers, used):
+    """calls of pure multi-statement helpers nested inside an expression -> (tokens with temporaries, [`auto tmp = call;`])"""
+    tokens = list(tokens)
+    pre = []
+    for _ in range(4):
+        for i, j, name, args in _calls_in(tokens, helpers):
+            h = _hinfo(helpers[name])
+            if h and h[1] and h[2] and h[3] and len(args) == len(h[0]) and all(args) and not (i == 0 and j == len(tokens)):
+                tmp, n = f"{name}__ret", 1
+                while tmp in used:
+                    n += 1
+                    tmp = f"{name}__ret{n}"
+                used.add(tmp)
+                pre.append(("expr", ["auto", tmp, "="] + tokens[i:j]))
+                tokens = tokens[:i] + [tmp] + tokens[j:]
+                break
+        else:
+            break
+    return tokens, pre
+
+
+def _inlined(callee, args, target, helper, used):
+    h = _hinfo(helper)
+    if h is None or len(args) != len(h[0]) or any(not a for a in args):
+        return None                         # (leaves from the middle: not modelled)
+    params, stmts, ret, _ = h
+    body = helper[1]
     if target is not None and not ret:
         return None
     core = ("block", stmts)
@@ -942,7 +1022,15 @@ def _subst_tokens(tokens, m):
     out = []
     for j, t in enumerate(tokens):
         if t in m and not (j and tokens[j - 1] in (".", "->", "::")):
-            out += m[t]
+            r = m[t]
+            if len(r) == 4 and r[0] == "(" and r[1] == "&" and r[3] == ")":
+                # a pointer parameter bound to `&x`: `*p` is x, `p` as a whole call argument is `&x`
+                if out and out[-1] == "*" and (len(out) == 1 or not (IDENT.match(out[-2]) or out[-2] in (")", "]") or out[-2][0].isdigit())):
+                    out[-1:] = [r[2]]
+                    continue
+                if out and out[-1] in ("(", ",") and j + 1 < len(tokens) and tokens[j + 1] in (")", ","):
+                    r = r[1:3]
+            out += r
         else:
             out.append(t)
     return out
